@@ -492,6 +492,10 @@ def hourly_fit_oracle(rng, adaptive, mdth=None):
     for _ in range(12):
         a = rng.randrange(100, len(idx) - 100)
         df.iloc[a:a + rng.choice([1, 2, 5]), rng.choice([0, 1])] = np.nan
+    # a meter outage of two and a half days shortly BEFORE the spring clock change (whole days fall under the daily-training-hours
+    # threshold and are left out of the training set, while the hour bookkeeping of the clock change must still refer to the full frame)
+    o0 = int(np.flatnonzero(idx >= pd.Timestamp("2021-03-08", tz="America/Chicago"))[0])
+    df.iloc[o0:o0 + 62, 1] = np.nan
     try:
         bd = HourlyBaselineData(df, is_electricity_data=True)
         st = dict(elasticnet=dict(adaptive_weights=True, adaptive_weight_max_iter=3, adaptive_weight_tol=1e-3)) if adaptive else None
